@@ -47,6 +47,20 @@ def canon(value):
     return json.dumps(value, sort_keys=True)
 
 
+class Hidden:
+    """A label whose repr does not tell it apart from another one (like a lambda or any object with the default repr passed
+    as an actor parameter): two functors that differ only in such a parameter look alike but are not the same task."""
+
+    def __init__(self, value):
+        self.value = value
+
+    def __str__(self):
+        return str(self.value)
+
+    def __repr__(self):
+        return 'Hidden()'
+
+
 class Stateless(flow.Actor):
     """apply(*xs) = App(label; params, nil, xs...), split into `szout` Out terms when multi-output."""
 
